@@ -103,6 +103,7 @@ struct HelperSpec { std::string token; int concurrency = 0; std::vector<Rule> ru
 struct DnsSpec { Addr addr; std::vector<Rule> rules; uint64_t latLo = 100, latHi = 2000; };
 struct DgramSpec { std::string name; Addr from, to; uint64_t atUs = 0; Bytes data; int dup = 1; std::string after; };
 struct ClockJump { uint64_t atUs; int64_t byUs; };
+struct SnapSpec { std::string label; uint64_t atUs = 0; std::string after; bool done = false; };
 struct DiskFault { std::string kind; long at = -1; long partial = -1; std::string opclass; double p = 0; long nth = -1; };
 
 struct Scenario {
@@ -114,7 +115,7 @@ struct Scenario {
     std::map<std::string, std::vector<std::string>> knobs;
     std::vector<std::pair<std::string, Bytes>> files;
     std::vector<ServerSpec> servers; std::vector<ClientSpec> clients; std::vector<HelperSpec> helpers;
-    std::vector<DnsSpec> dns; std::vector<DgramSpec> dgrams; std::vector<ClockJump> jumps; std::vector<DiskFault> diskFaults;
+    std::vector<DnsSpec> dns; std::vector<DgramSpec> dgrams; std::vector<ClockJump> jumps; std::vector<DiskFault> diskFaults; std::vector<SnapSpec> snaps;
     std::string mode = "P"; std::vector<std::string> modeArgs;
     std::string rundir;
     uint64_t sigtermAtUs = 0; std::string sigtermAfter;
@@ -133,6 +134,7 @@ void hist(const char *fmt, ...) __attribute__((format(printf, 1, 2)));
 std::string histBlob(const void *p, size_t n);
 void histFlush();
 void probe(const char *name, uint64_t add = 1);
+void fdSnapshot(const std::string &label); // FDSNAP record: every simulated and real descriptor the process holds
 
 // ---------------------------------------------------------------- kernel API used by engines
 uint64_t nowUs();
